@@ -54,6 +54,11 @@ CHECKS["C09"] = dict(level="model_checking", design="5/C09", note=_gc_note,
    technique="Lang.tla predictions (content equality) replayed under collection schedules; intern events validated by TLC against Gc.tla S4",
    text="String programs (equal contents built by literal, concatenation, interpolation, str(); equal strings created, dropped and collected in between; strings as field and method names, list members) run under the schedules must print what Lang.tla predicts, and TLC validates the intern hit/miss/evict events: a hit returns the table's string for that content, a miss happens only when no entry exists, no entry outlives its string.")
 
+CHECKS["C16"] = dict(level="model_checking", design="5/C16",
+   technique="TLA+ specification Natives.tla of the signature gate in front of every built-in, over the signature table read from the running VM; TLC enumerates every call (native x argument kinds) and decides the gate's verdict; each call is replayed on the VM with concrete values (conformance of the verdict, no host failure); program families with outcomes known by construction",
+   text="Every built-in of the global module and the standard library (473 natives) is called with every vector of up to 3 (thorough: 4) arguments over 15 value kinds, with boundary values per kind; TLC decides on Natives.tla whether the gate refuses the call (arity / kind) or the body runs, the VM must agree and must never panic, abort, fault or hang. Generated programs: unbounded recursion through cycles of 22 kinds of call link (functions, closures, methods, initialisers, bound methods, .call, each iterator adaptor's callback, sort, interpolation, super, index calls) on the main fiber, a launched fiber and under a native callback must end in a catchable stack-overflow error; non-callables called, launched and passed as callbacks; non-errors raised; 20 kinds of bad superclass; error classes with odd initialisers raised uncaught, caught, wrapped and under callbacks; errors while handling errors; exit() at every depth; launch of every callable kind; str() that returns a non-string, raises or recurses at every site that calls it; self-containing values.",
+   note="Trusts the natives dump hook, the error messages of the gate as its observable verdict, TLC. Values per kind are drawn from fixed pools (boundary numbers, multi-byte strings, empty and grown collections). Debug build in quick, debug and release in thorough. Two known findings (blocking channel operation under a native callback; collector recursion on very deep structures) are listed in known_findings.json.")
+
 NOT_APPLICABLE = {}
 
 def main():
